@@ -3,4 +3,10 @@ package main
 func registerProps() {
 	g1rule := "each run = one seeded single-primary gRIBI history (modify batches of 1-8 ADD/REPLACE/DELETE operations over NH/NHG/IPv4/IPv6/MPLS in 2-3 network instances with dependency chains in random arrival order, flushes, primary hand-overs) executed against the real server under the deterministic scheduler with seeded map-iteration/select order; a run is non-trivial if a fault fired or >=8 context switches occurred; distinct = distinct run fingerprints (hash of the full event log)"
 	props["C01"] = propCfg{Families: []string{"g1"}, Rule: g1rule + "; oracle: reference model replayed in acknowledgement order, RIBContents and Get compared with it at every quiescent point"}
+	props["C02"] = propCfg{Families: []string{"g1"}, Rule: g1rule + "; oracle: every acknowledgement justified by model resolvability at that moment, held set (hook) equals the model's and contains nothing resolvable, no dangling reference"}
+	props["C03"] = propCfg{Families: []string{"g1"}, Rule: g1rule + " with DELETE sweeps over every group and next-hop; oracle: DELETE verdict == (model referrer count > 0), reference counters (hook) == referrers after every step"}
+	props["C06"] = propCfg{Families: []string{"g1"}, Rule: g1rule + "; oracle over the per-stream result history: one terminal verdict per id, FIB after RIB, no foreign ids, nothing unanswered at quiescence unless legitimately held"}
+	props["C07"] = propCfg{Families: []string{"g1"}, Rule: g1rule + " with payloads over every fluent-settable field; oracle: Get for every (network instance|all) x (table|ALL) equals the model field for field, ALL == disjoint union, FromGetResponses round trip"}
+	props["C08"] = propCfg{Families: []string{"g1"}, Rule: g1rule + " with frequent Flush; oracle: model flush + specification status table, state/refcount comparison afterwards"}
+	props["C16"] = propCfg{Families: []string{"g1"}, Rule: g1rule + " on servers with change hooks and network instances created before/after registration; oracle: fold(notifications) == model at every quiescent point, resolved-entry snapshots private"}
 }
